@@ -208,7 +208,12 @@ def execute(case):
         # history: the SAME generator object already produced a graph (for the same or another sequence) before the judged call
         try:
             holder["alg"] = make()
-            Oracle().run_seeded(case.get("pre_seed", 7), lambda: holder["alg"].random_clustered_graph([tuple(j) for j in case["pre_jds"]]))
+            pre_list = [tuple(j) for j in case["pre_jds"]]
+            Oracle().run_seeded(case.get("pre_seed", 7), lambda: holder["alg"].random_clustered_graph(pre_list))
+            if case.get("pre_same_list"):
+                # the caller edits the very same list object in place between the two calls
+                pre_list[:] = jds_arg
+                jds_arg = pre_list
         except Exception:
             holder.pop("alg", None)
         del calls[:]
@@ -220,7 +225,9 @@ def execute(case):
     orc = Oracle()
     try:
         with watchdog(20):
-            if case["rng"][0] == "seed":
+            if case["rng"][0] == "none":
+                res = go()                         # no oracle: whatever randomness the code uses runs freely
+            elif case["rng"][0] == "seed":
                 res = orc.run_seeded(case["rng"][1], go)
             elif case["rng"][0] == "open":
                 res = orc.run_open(case["rng"][1], go)
